@@ -6,7 +6,10 @@ handed to the real pyanalyze.  What it reports as the effective value of an opti
 (Options.from_option_list -> for_module -> get_value_for / is_error_code_enabled; NameCheckVisitor.main() with
 --display-options; sampled: `python -m pyanalyze` in a subprocess and the diagnostics of a probe module) is compared
 with a small executable reference model of the documented order.  A catalogue of invalid configurations must be
-rejected with InvalidConfigOption.
+rejected with InvalidConfigOption.  Inclusion graphs (chains, cycles, diamonds over several directories, every hop and
+the main path spelled in every way: plain, ./x, ../x, ../dir/x, down-and-up, absolute, through file and directory
+symlinks) are judged against a walk of the files on disk with os.path.realpath: recursive -> InvalidConfigOption from
+every entry point, not recursive -> loads and layers in walk order.
 """
 from __future__ import annotations
 
@@ -41,11 +44,20 @@ RULE = (
     "occurs). Non-trivial = at least two layers applicable to the path set the option to different values; distinct by "
     "layering shape (option, path, ordered list of (file, section kind, prefix length, via disable_all), and whether "
     "extend_config precedes the option in each file's top-level table). Invalid catalogue: every class x depth 0-2 x "
-    "top-level/override placement x 3 entry points."
+    "top-level/override placement x 3 entry points. Inclusion graphs: every shape (chain of 1-4 files whose last file "
+    "extends nothing or file j: self-loops, cycles through the main file, cycles entered from a chain; diamond main -> "
+    "{top-level extend, override-section extend} -> shared file -> nothing or file j) x 7 directory patterns (one "
+    "directory, siblings, two siblings alternating, descending, ascending, cousins, one sub-directory) x 9 spellings used "
+    "for every hop (relative, ./, ../<own dir>/, <sub dir>/../, absolute, absolute with .., symlinked file relative and "
+    "absolute, symlinked directory), main path plain / with .. / a symlink, extend_config first / between / last in "
+    "the table; then graphs with a random spelling per hop over 6 directories. Each file sets an integer, a list, an "
+    "error code and (odd files) an override; ground truth = os.path.realpath walk of the written files; distinct by "
+    "(kind, files, back edge, hop classes, entry spelling, directory pattern)."
 )
 LEVEL_TEXT = (
     "every explored (stack, command line, module path, option) was judged by the reference precedence function; list "
-    "options as exact sequences; bounded to 3 files / 4 overrides per file / prefix depth 3"
+    "options as exact sequences; bounded to 3 files / 4 overrides per file / prefix depth 3; inclusion graphs of up to "
+    "4 files judged against a realpath walk (hard links, bind mounts, case-insensitive file systems not explored)"
 )
 ASSUMPTIONS = [
     "reference model (function `layers` + `acceptable`, ~15 lines) encodes docs/configuration.md and the property "
@@ -59,14 +71,25 @@ ASSUMPTIONS = [
     "(option_cls(value, from_command_line=True)); the real assembly is observed through NameCheckVisitor.main() "
     "--display-options in-process for every stack and through `python -m pyanalyze` on a sample",
     "tomli is trusted to parse the generated TOML as written (key order = textual order)",
+    "inclusion graphs: an extend_config value is relative to the real directory of the including file and names the "
+    "file os.path.realpath gives (POSIX: symlinks resolved before '..'); inclusion is recursive iff the walk reaches a real "
+    "path that is on its current stack; a shared file of a diamond is not recursive; for diamonds only the main file's "
+    "value and a value set in the shared file alone are judged (the order of the two equally deep branches is "
+    "undocumented); extend_config inside an override section is followed like the top-level one (observed behaviour)",
 ]
 FLOORS = {
     "quick": {"distinct_nontrivial": 32000, "evaluations": 290000, "stacks": 1600, "nontrivial_cases": 60000,
               "tie_cases": 5000, "display_values_compared": 17000, "invalid_cases": 700, "invalid_rejected": 550,
-              "cli_display_runs": 8, "cli_invalid_runs": 8, "diag_modules_checked": 250, "cli_diag_files": 48},
+              "cli_display_runs": 8, "cli_invalid_runs": 8, "diag_modules_checked": 250, "cli_diag_files": 48,
+              "graph_cases": 950, "graph_recursive": 640, "graph_recursive_rejected": 1500,
+              "graph_recursive_no_canonical_hop": 390, "graph_not_recursive_loaded": 700, "graph_values_compared": 3100,
+              "graph_with_symlink": 570, "graph_cli_runs": 8},
     "thorough": {"distinct_nontrivial": 300000, "evaluations": 8000000, "stacks": 30000, "nontrivial_cases": 2000000,
                  "tie_cases": 150000, "display_values_compared": 1000000, "invalid_cases": 700, "invalid_rejected": 550,
-                 "cli_display_runs": 60, "cli_invalid_runs": 50, "diag_modules_checked": 2000, "cli_diag_files": 150},
+                 "cli_display_runs": 60, "cli_invalid_runs": 50, "diag_modules_checked": 2000, "cli_diag_files": 150,
+                 "graph_cases": 7600, "graph_recursive": 4400, "graph_recursive_rejected": 10300,
+                 "graph_recursive_no_canonical_hop": 2100, "graph_not_recursive_loaded": 7300, "graph_values_compared": 34000,
+                 "graph_with_symlink": 5300, "graph_cli_runs": 32},
 }
 NSHARDS = 16
 WATCHDOG_S = {"quick": 900, "thorough": 7200}
@@ -1572,6 +1595,7 @@ def graph_specs(ctx):
 
 
 def run_graphs(ctx, rep: Reporter) -> None:
+    cli_left = ctx.pick(1, 4)          # recursive graphs without a canonical hop through a real subprocess, per shard
     for i, spec in enumerate(graph_specs(ctx)):
         if not ctx.mine(i):
             continue
@@ -1611,7 +1635,8 @@ def run_graphs(ctx, rep: Reporter) -> None:
             if key not in seen:
                 seen.add(key)
                 rep.report(key, what, wit)
-        if info["cyclic"] and info["all_noncanonical"] and i % (ctx.nshards * ctx.pick(40, 10)) == ctx.shard:
+        if info["cyclic"] and info["all_noncanonical"] and cli_left > 0 and (i // ctx.nshards) % 7 == 3:
+            cli_left -= 1
             check_graph_cli(ctx, rep, wit)
 
 
@@ -1625,7 +1650,7 @@ def check_graph_cli(ctx, rep, wit) -> None:
     ctx.count("evaluations")
     ctx.count("graph_cli_runs")
     if cp.returncode == 0 or "InvalidConfigOption" not in cp.stderr:
-        last = (cp.stderr.strip().splitlines() or [""])[-1]
+        last = (re.sub(r"\x1b\[[0-9;]*m", "", cp.stderr).strip().splitlines() or [""])[-1]
         cls = "accepted" if cp.returncode == 0 else re.sub(r":.*", "", last)[:40]
         rep.report(f"inclusion-graph|recursive|{cls}",
                    f"python -m pyanalyze --display-options on a recursive inclusion: rc={cp.returncode}, {last[:200]!r}",
@@ -1671,7 +1696,13 @@ def replay(witness):
     want = witness.get("key")
     found = []
     try:
-        if route == "invalid":
+        if route == "graph" and not witness.get("cli"):
+            found = judge_graph(witness)[0]
+        elif route == "graph":
+            ctx = Ctx(ID, "quick", 0, 0, 1)
+            check_graph_cli(ctx, Reporter(ctx, per_key=10**9), witness)
+            found = [(key, lst[0]["what"]) for key, lst in ctx.violations.items()]
+        elif route == "invalid":
             r = judge_invalid(witness["cls"], witness["files"], witness["entry"])
             if r:
                 found.append((r[0], f"{witness.get('desc', '')} via {witness['entry']}: {r[1]}"))
